@@ -322,17 +322,26 @@ func (env *Env) local(name string) (Value, bool) {
 	}
 	var a *ssa.Alloc
 	if want > 0 {
-		// ordinal in source order over all allocs of the function with that name
-		n := 0
+		// ordinal in source order over all allocs of the function with that name (block order is not source order:
+		// the exit block of a loop is created before the blocks of its body); allocs without a position (hidden
+		// range indices) keep their block order
+		var all []*ssa.Alloc
+		positioned := true
 		for _, b := range env.fr.fn.Blocks {
 			for _, in := range b.Instrs {
 				if al, ok := in.(*ssa.Alloc); ok && al.Comment == base {
-					n++
-					if n == want {
-						a = al
+					all = append(all, al)
+					if !al.Pos().IsValid() {
+						positioned = false
 					}
 				}
 			}
+		}
+		if positioned {
+			sort.SliceStable(all, func(i, j int) bool { return all[i].Pos() < all[j].Pos() })
+		}
+		if want <= len(all) {
+			a = all[want-1]
 		}
 		if a == nil {
 			return Value{}, false
